@@ -22,7 +22,7 @@ RULE = "instances = the shift/slot handlers' paths, service-start events on spli
 
 def check(ctx):
     P = ctx.program
-    iters = (0, 1, 2) if ctx.tier == "thorough" else (0, 1)
+    iters = (0, 1)
     views = family_views(P, "Node")
     shift(ctx, P, views, iters)
     off_duty(ctx, P, views, iters)
